@@ -31,6 +31,7 @@ Print Assumptions C03_restart_common.
 
 Theorem C03_restart_channel : forall c log ops pre post ops2 vis s,
   wf_log log -> 2 <= s < nseq c -> mtr (mrun c log ops) = pre ++ post ->
+  mtracked (mrun (rebase c (fun s => persisted c s pre)) log ops2) s = true ->
   forall e, In e log -> eseq e = s -> base c s < epos e <= vis s ->
             accounted s e pre \/
             accounted s e (mtr (mrun (rebase c (fun s => persisted c s pre)) log (ops2 ++ [MChanTooLong vis s]))).
@@ -43,7 +44,7 @@ Definition vis_of (l : list Z) : Z -> Z := fun s => nth (Z.to_nat s) l 0.
 
 (* too long: [.. Persist pts 4] is a prefix in which 4 messages are covered, undelivered and
    unreported (the callback came one step later) *)
-Definition tl_cfg : config := {| nseq := 2; base := fun _ => 0; slice_lim := 0; tl_thr := 2; cslice_lim := 0; ctl_thr := 0 |}.
+Definition tl_cfg : config := {| nseq := 2; base := fun _ => 0; tracked0 := fun _ => true; slice_lim := 0; tl_thr := 2; cslice_lim := 0; ctl_thr := 0 |}.
 Definition tl_log : list entry := [E 1 0 0 1 1; E 2 0 0 2 1; E 3 0 0 3 1; E 4 0 0 4 1].
 Definition tl_ops : list mop := [MStartup (vis_of [0; 0]); MTooLong (vis_of [4; 0])].
 Theorem C03_toolong_refuted_before_repair :
@@ -55,7 +56,7 @@ Example C03_toolong_repaired : mtr (mrun tl_cfg tl_log tl_ops) = [TooLong 0; Per
 Proof. vm_compute. reflexivity. Qed.
 
 (* difference {new_messages:[1], other_updates:[2]}: pts 2 persisted, update 2 never delivered *)
-Definition w_cfg : config := {| nseq := 2; base := fun _ => 0; slice_lim := 0; tl_thr := 0; cslice_lim := 0; ctl_thr := 0 |}.
+Definition w_cfg : config := {| nseq := 2; base := fun _ => 0; tracked0 := fun _ => true; slice_lim := 0; tl_thr := 0; cslice_lim := 0; ctl_thr := 0 |}.
 Definition w_log : list entry := [E 1 0 0 1 1; E 2 1 0 2 1].
 Theorem C03_refuted_before_repair :
   let tr := mtr (mrun_old w_cfg w_log [MStartup (vis_of [0; 0]); MTooLong (vis_of [2; 0])]) in
@@ -65,6 +66,6 @@ Print Assumptions C03_refuted_before_repair.
 
 (* non-vacuity: a run with several storage writes, all of whose prefixes are safe *)
 Example C03_nonvacuous :
-  mtr (mrun w_cfg w_log [MStartup (vis_of [0; 0]); MPush (vis_of [2; 0]) [2]; MPush (vis_of [2; 0]) [1]; MTooLong (vis_of [2; 0])])
+  mtr (mrun w_cfg w_log [MStartup (vis_of [0; 0]); MPushC (vis_of [2; 0]) 1 0 [2] false; MPushC (vis_of [2; 0]) 2 0 [1] false; MTooLong (vis_of [2; 0])])
   = [Deliver 0 1; Deliver 0 2; Persist 0 2].
 Proof. vm_compute. reflexivity. Qed.
